@@ -46,13 +46,14 @@ class Tracker(Monitor):
         self.epoch = {}            # (nick, inc, app) -> plan counter (entry points of the Starter)
         self.queued_epochs = set()
         self.distribution_epochs = set()
+        self.process_epochs = set()
         self.received = {}         # (receiver nick, inc, source nick, namespec) -> (time, state) of the last event
         w.on_hook('fsm_process_event', self.on_process_event_received)
         w.on_hook('starter_start_applications', lambda inst, *a, **k: self.bump(inst, None))
         w.on_hook('starter_start_application',
                   lambda inst, strategy, application, *a, **k: self.bump(inst, application.application_name))
         w.on_hook('starter_start_process',
-                  lambda inst, strategy, process, *a, **k: self.bump(inst, process.application_name))
+                  lambda inst, strategy, process, *a, **k: self.bump(inst, process.application_name, single=True))
 
     # -- senders ------------------------------------------------------------------------------------
     def on_state(self, inst, payload):
@@ -77,12 +78,13 @@ class Tracker(Monitor):
             old = self.stop_epoch.get(key)
             number = (old['n'] + 1) if old else 1
             # what the plan is made of: the processes the instance sees running (or stopping) at that moment
-            running = {}
+            running, seen_states = {}, {}
             try:
                 for info in peek(w, inst.nick, 'supvisors.get_process_info', app + ':*'):
                     ns = f"{info['application_name']}:{info['process_name']}"
                     for identifier in info['identifiers']:
                         running.setdefault(ns, set()).add(w.by_identifier.get(identifier))
+                        seen_states[ns] = info['statecode']
             except Fault:
                 pass
             if kind == 'process' and old and not old.get('closed'):
@@ -100,14 +102,14 @@ class Tracker(Monitor):
             except Exception:
                 pass
             self.stop_epoch[key] = {'n': number, 'kind': kind, 'pure': kind != 'process' and not overlapping,
-                                    'running': running, 't': w.now, 'step': w.steps}
+                                    'running': running, 'states': seen_states, 't': w.now, 'step': w.steps}
         self.last_plan[(inst.nick, inst.inc, 'stop')] = w.now
         self.count('stop_plans')
 
     def stop_epoch_of(self, nick, inc, app):
         return self.stop_epoch.get((nick, inc, app))
 
-    def bump(self, inst, app_name):
+    def bump(self, inst, app_name, single=False):
         """ A new start plan begins for the application(s) at this instance. """
         apps = [app_name] if app_name else list(self.run.model)
         try:
@@ -120,6 +122,9 @@ class Tracker(Monitor):
             if app_name is None:
                 # the automatic start of every application (DISTRIBUTION, restart_sequence)
                 self.distribution_epochs.add((inst.nick, inst.inc, app, self.epoch[key]))
+            if single:
+                # the start of one process (start_process, start_args, a RESTART_PROCESS repair): not a sequence
+                self.process_epochs.add((inst.nick, inst.inc, app, self.epoch[key]))
             # a plan requested while another one of the same application is in progress at that instance is queued
             # behind it (or merged into it): the requests that follow cannot be attributed to one of them
             if app in busy:
@@ -384,8 +389,9 @@ class StartSequenceMonitor(Monitor):
                 self.violate('C03/sequence-0-started', f"{req['sender']} in DISTRIBUTION requested {namespec} whose "
                              f"start_sequence is application={app_seq} process={seq} and which never ran",
                              case=run.describe())
-            # 5. no process of a lower sequence has been skipped
-            if seq > 0:
+            # 5. no process of a lower sequence has been skipped (by a plan that starts the application: the start of
+            #    one process, e.g. a RESTART_PROCESS repair while in DISTRIBUTION, has no sequence to honour)
+            if seq > 0 and (req['sender'], req['inc'], app_name, req['epoch']) not in tr.process_epochs:
                 for other_ns, (oapp, oprog) in run.procs.items():
                     if oapp != app_name or other_ns == namespec:
                         continue
@@ -939,7 +945,15 @@ class StopSequenceMonitor(Monitor):
                         active = self.still_active(other, nicks, plan['t'])
                         if active and not self.given_up(req['sender'], req['inc'], other, plan['t']) and \
                                 any(self.sees(inst, n) == 'RUNNING' for n in active):
-                            self.violate('C09/application-order', f'stop request {where} (application stop_sequence '
+                            mech = ''
+                            asked = any(r['sender'] == req['sender'] and r['inc'] == req['inc'] and r['t'] >= plan['t']
+                                        and r['namespec'].split(':')[0] == oapp for r in tr.stops)
+                            if oplan['states'] and all(code == 40 for code in oplan['states'].values()) and not asked:
+                                # nothing of that application was running for the requester when it built the plan,
+                                # only processes left STOPPING (by a plan that an ELECTION aborted, by somebody else):
+                                # the application is not part of the plan and nobody waits for them
+                                mech = ':application-with-only-stopping-processes-left-out-of-the-plan'
+                            self.violate('C09/application-order' + mech, f'stop request {where} (application stop_sequence '
                                          f'{app_seq}) while {other} of application {oapp} (stop_sequence {oapp_seq}) '
                                          f'is still {self.states(other, active)}', case=run.describe())
 
@@ -1019,8 +1033,20 @@ class StopSequenceMonitor(Monitor):
         if closing and closing.get('accepted'):
             self.count('closing_runs')
             kind = closing['kind']
+            # the Master may still be stopping the applications when the run ends (long stopwaitsecs, processes that
+            # never stop and whose stops are given up level after level): the final clauses cannot be judged yet
+            unfinished = False
+            minst = w.instances.get(closing['master'])
+            if minst is not None and minst.alive and minst.inc == closing['incs'][closing['master']]:
+                try:
+                    state = peek(w, closing['master'], 'supvisors.get_supvisors_state')
+                    unfinished = state['fsm_statename'] in ('RESTARTING', 'SHUTTING_DOWN') and state['stopping_jobs']
+                except Fault:
+                    pass
+            if unfinished:
+                self.count('closing_runs_not_finished_when_the_run_ends')
             # every instance that was alive and in the Master group received exactly one order
-            for nick in closing['members']:
+            for nick in (closing['members'] if not unfinished else ()):
                 inc = closing['incs'][nick]
                 got = [o for o in self.orders.get((nick, inc), []) if o[1] == 'supervisor.' + kind]
                 inst_crashed = nick in closing.get('crashed', [])
@@ -1210,12 +1236,16 @@ class JobTerminationMonitor(Monitor):
                          f"{prog.get('stopwaitsecs')})", case=self.run.describe())
         elif rec['state'] == 200 and truth == 10 and w.now - since < prog.get('startsecs', 0) - 0.01:
             mech = ''
+            got = self.tracker.received.get((inst.nick, inst.inc, target, namespec), [])
             older = [r for r in self.tracker.requests if r['sender'] == inst.nick and r['inc'] == inst.inc and
-                     r['namespec'] == namespec and w.now - r['t'] > self.bound['start'] * TICK]
+                     r['namespec'] == namespec and r['t'] < since and
+                     (w.now - r['t'] > self.bound['start'] * TICK or
+                      any(r['t'] <= t < since and state == 20 for t, state, _ in got))]
             if prog.get('wait_exit') and older:
                 # the command of a wait_exit program stays in the Starter until the exit; when the process is started
                 # again meanwhile (Supervisor autorestart, user), its new STARTING phase is timed against the tick
-                # counter of the original request
+                # counter of the original request (the requester saw it RUNNING after that request, or the request is
+                # older than any start job may last)
                 mech = ':wait-exit-command-timed-against-its-original-request'
             self.violate('C10/start-given-up-before-startsecs' + mech,
                          f"{inst.nick} gave up the start of {namespec} on {target} at vt={vt(w)} ({rec['reason']}) "
